@@ -258,7 +258,7 @@ func runCrashCase(c crashCase, work string) (string, string, int) {
 	if err != nil {
 		return "", "", transitions // reported above
 	}
-	if err := ms4.AddCredential("after-crash", key(c.Users+11)); err != nil {
+	if err := ms4.AddCredential("after-crash", []byte("after-crash-key!")); err != nil {
 		harness.Fatal("change after the crash: %v", err)
 	}
 	wantAfter := setString(credSet(ms4))
